@@ -3345,6 +3345,11 @@ class CppEmitter(Visitor):
             # a copy, since the write has to reach the caller.
             raise self._refuse_mismatch(have, want, e)
         if have.boxed == want.boxed:
+            if param.written and not want.boxed and not isinstance(e, Var | ListRef):
+                # A written parameter is a non-const reference, which cannot
+                # bind a prvalue (a slice, a literal, a call result).  The
+                # write lands in a fresh list nothing else names, as in FPy.
+                return self._bind_operand(emitted)
             return emitted
         if not have.boxed:
             raise CppEmitError(
